@@ -274,6 +274,7 @@ def check_text(ctx, desc, rows, kinds, dc, opts, case):
         return text            # cannot attribute lines to rows unambiguously
     li = 0
     dot_positions = [set() for _ in cols]
+    inner_points = [dict() for _ in cols]
     for r, n in zip(rows, per_row):
         chunk = cells_by_line[li:li + n]
         li += n
@@ -323,10 +324,45 @@ def check_text(ctx, desc, rows, kinds, dc, opts, case):
                 m = re.search(r'-?[0-9][0-9,]*', first)
                 if m:
                     dot_positions[ci].add(m.end())     # offset right after the integer digits = where the decimal point is/would be
+            if k in ('position', 'inventory'):
+                # amounts inside position / inventory cells: the decimal point of the units (and of the cost) of a commodity
+                # is at the same offset in every row
+                for line_no, t in enumerate(texts):
+                    seen_slot = {}
+                    depth = 0
+                    for m in re.finditer(r'[{}]|(-?[0-9][0-9,]*)(?:\.[0-9]+)?\s+([A-Z][A-Z0-9]*)', t):
+                        if m.group(0) == '{':
+                            depth += 1
+                            continue
+                        if m.group(0) == '}':
+                            depth -= 1
+                            continue
+                        cur = m.group(2)
+                        if depth == 0:
+                            ordinal = seen_slot.get(cur, 0)
+                            seen_slot[cur] = ordinal + 1
+                            last_units = (cur, ordinal if not expand else 0)
+                            key = (('units', cur), last_units[1])
+                        else:
+                            # the cost belongs to the lot whose units were read last
+                            key = (('cost', last_units[0]), last_units[1])
+                        inner_points[ci].setdefault(key, set()).add(m.end(1))
     for ci, pos in enumerate(dot_positions):
         if len(pos) > 1 and kinds[ci] in ('decimal', 'amount'):
             ctx.violation('c16.decimal_alignment', f'column {desc[ci].name}: decimal points at offsets {sorted(pos)}', case)
             return None
+    for ci, slots in enumerate(inner_points):
+        if kinds[ci] == 'inventory' and not expand:
+            # the tabular layout is only used for at most 5 commodity slots; beyond that positions are simply joined
+            nslots = sum(max(sum(1 for p in v.get_positions() if p.units.currency == c) for v in (r[ci] for r in rows) if v is not None)
+                         for c in {p.units.currency for r in rows if r[ci] is not None for p in r[ci].get_positions()}) if any(r[ci] is not None for r in rows) else 0
+            if nslots > 5:
+                continue
+        for key, pos in slots.items():
+            ctx.count('obs.inner_alignment_slots')
+            if len(pos) > 1:
+                ctx.violation('c16.decimal_alignment_inside_cells', f'column {desc[ci].name} ({kinds[ci]}): the {key[0][0]} amount of {key[0][1]} (lot {key[1]}) has its decimal point at offsets {sorted(pos)} in different rows', case)
+                return None
     return text
 
 
